@@ -989,3 +989,144 @@ def c20(case, F):
                 detail = " new descriptors: %s" % json.dumps(extra)[:500]
             v.append((_sig(case, F, "leak_" + dim), witness_text(case, F, "repeating the history %s more times changed the %s census: after 1 run %s, after 1+N runs %s.%s" % (N, dim, json.dumps(a[dim]), json.dumps(b[dim]), detail))))
     return v
+
+
+# ------------------------------------------------------------------ C13
+def c13(case, F):
+    v = []
+    m = case.get("meta", {})
+    if F.outcome == "ended":
+        left = F.final.get("shm")
+        if left:
+            v.append((_sig(case, F, "semaphore_outlives_tree", ending=m.get("ending")), witness_text(case, F, "entries left in the (private) /dev/shm after the whole process tree ended (%s): %s" % (m.get("ending"), left))))
+    created = {}
+    for o in sorted((o for o in F.ops.values() if o["call"] and o["end"] is not None and o["end"]["k"] == "ret"), key=lambda o: o["call"]["t"]):
+        c, e = o["call"], o["end"]
+        r = e["r"] if isinstance(e.get("r"), dict) else {}
+        if c["op"] == "mk":
+            created[c["a"]["obj"]] = set(r.get("shm") or []) - set(r.get("before") or [])
+        elif c["op"] == "drop":
+            names = created.pop(c["a"]["obj"], set())
+            still = names & set(r.get("shm") or [])
+            if still:
+                v.append((_sig(case, F, "not_unlinked_when_collected"), witness_text(case, F, "object %s was collected but its named semaphores %s are still in /dev/shm" % (c["a"]["obj"], sorted(still)))))
+            for other, nm in created.items():
+                gone = nm - set(r.get("shm") or [])
+                if gone:
+                    v.append((_sig(case, F, "unlinked_while_alive"), witness_text(case, F, "dropping %s removed semaphores %s of the live object %s" % (c["a"]["obj"], sorted(gone), other))))
+        elif c["op"] == "use_obj":
+            names = created.get(c["a"]["obj"], set())
+            gone = names - set(r.get("shm") or [])
+            if gone:
+                v.append((_sig(case, F, "child_copy_unlinked", how=c["a"].get("how")), witness_text(case, F, "a child that received a pickled copy of %s (%s) removed its semaphores %s" % (c["a"]["obj"], c["a"].get("how"), sorted(gone)))))
+        elif c["op"] == "shmlist" and c["a"].get("expect_empty"):
+            if r.get("shm"):
+                v.append((_sig(case, F, "not_unlinked_when_collected", what="all"), witness_text(case, F, "every primitive and executor was released and collected, yet /dev/shm still holds %s" % r.get("shm"))))
+    # no 'leaked' report when nothing crashed and the interpreter exited normally
+    clean = (not m.get("crash")) and m.get("ending") in ("return", "return_live", "raise", "sys_exit") and not _has_deaths(F) and not F.fired(DEATH_KINDS)
+    if clean and F.outcome == "ended":
+        err = F.h.read("stderr.txt", 60000)
+        if "leaked" in err and "resource_tracker" in err:
+            lines = [l for l in err.splitlines() if "leaked" in l or "FileNotFoundError" in l][:4]
+            feeder = any(str(x.get("th", "")).startswith("QueueFeederThread") for x in F.h.by("mark") if x.get("name") == "semlock_cleanup") or \
+                any(x.get("thr") == "feeder" and x["pt"][1] == "SemLock._cleanup" for x in F.points)
+            v.append((_sig(case, F, "leak_reported_for_released_objects", cleanup_ran_in_feeder_thread=feeder), witness_text(case, F, "the tracker reported leaked resources although nothing crashed and the interpreter exited normally:\n" + "\n".join(lines))))
+    # exactly one DELETE per created name
+    evs = [e for e in (F.final.get("fs_events") or []) if e["dir"] == "/dev/shm"]
+    cnt = {}
+    for e in evs:
+        k = e["name"]
+        c = cnt.setdefault(k, [0, 0])
+        c[0 if e["ev"] == "create" else 1] += 1
+    c13.names = len(cnt)
+    for k, (nc, nd) in cnt.items():
+        if nd > nc:
+            v.append((_sig(case, F, "double_unlink"), witness_text(case, F, "name %s was created %d time(s) but deleted %d time(s)" % (k, nc, nd))))
+    return v
+
+
+# ------------------------------------------------------------------ C12
+def _collect(val, key, out):
+    if isinstance(val, dict):
+        if key in val:
+            out.append(val)
+        for x in val.values():
+            _collect(x, key, out)
+    elif isinstance(val, list):
+        for x in val:
+            _collect(x, key, out)
+
+
+def c12(case, F):
+    v = []
+    m = case.get("meta", {})
+    tr_ops = sorted((o for o in F.ops.values() if o["call"] and o["call"]["op"] == "tracker" and o["end"] is not None), key=lambda o: o["call"]["t"])
+    root_pid = None
+    killed_times = []
+    for o in tr_ops:
+        c, e = o["call"], o["end"]
+        if e["k"] != "ret":
+            what = c["a"]["what"]
+            v.append((_sig(case, F, "tracked_operation_failed", what=what, etype=e["exc"]["type"]), witness_text(case, F, "tracker operation %s raised %s: %s" % (what, e["exc"]["type"], e["exc"]["str"][:300]))))
+            continue
+        r = e["r"]
+        if root_pid is None:
+            root_pid = r.get("tracker_pid")
+        if c["a"]["what"] == "kill":
+            killed_times.append(e["t"])
+        if c["a"]["what"] == "signal" and r.get("tracker_state") in (None, "Z"):
+            v.append((_sig(case, F, "tracker_died_on_signal", sig=c["a"]["sig"]), witness_text(case, F, "the tracker (pid %s) died on %s" % (r.get("tracker_pid"), c["a"]["sig"]))))
+    trackers = sorted((p for p in F.procs.values() if p.get("role") == "tracker"), key=lambda p: p["t"])
+    # one tracker for the whole tree (relaunches only after a kill)
+    # (after a tracker death every process of the tree that needs one starts its own: the single-tracker
+    #  clause is about trees whose tracker was not killed)
+    if not killed_times and len(trackers) > 1:
+        v.append((_sig(case, F, "several_trackers"), witness_text(case, F, "%d loky tracker processes were started in one tree with %d tracker kill(s): %s" % (len(trackers), len(killed_times), [(t["pid"], t["ppid"]) for t in trackers]))))
+    # every member reports to the root's tracker (probes taken before any tracker kill)
+    t_first_kill = min(killed_times) if killed_times else float("inf")
+    for name, f in F.handed_out().items():
+        d = f["done"]
+        if d is None or d["state"] != "result" or d["t"] > t_first_kill:
+            continue
+        found = []
+        _collect(d["value"], "tracker_pid", found)
+        for obs in found:
+            if root_pid is not None and obs.get("tracker_pid") != root_pid:
+                v.append((_sig(case, F, "member_uses_other_tracker"), witness_text(case, F, "process pid %s at depth %s reports tracker pid %s, the root's tracker is %s" % (obs.get("pid"), obs.get("depth"), obs.get("tracker_pid"), root_pid))))
+    c12.probes = sum(1 for f in F.handed_out().values() if f["done"] and f["done"]["state"] == "result")
+    # injected signals inside the tracker: it must not die of them
+    for f in F.faults:
+        if f.get("kind") == "signal" and f.get("role") == "tracker":
+            rp = F.reaps.get(f["pid"])
+            if rp is not None and rp.get("code") in (-2, -15):
+                v.append((_sig(case, F, "tracker_died_on_signal", sig=f.get("sig"), at="%s:%s" % (f["pt"][0], f["pt"][1])), witness_text(case, F, "tracker pid %s died of %s delivered at %s" % (f["pid"], f.get("sig"), f.get("pt")))))
+    for t in trackers:
+        rp = F.reaps.get(t["pid"])
+        if rp is not None and rp.get("code") in (-2, -15):
+            v.append((_sig(case, F, "tracker_died_on_signal", sig=str(rp.get("code"))), witness_text(case, F, "tracker pid %s ended with status %s" % (t["pid"], rp.get("code")))))
+    # relaunch after SIGKILL: a new tracker exists afterwards
+    if killed_times and len(trackers) < 2 and any(o["call"]["t"] > killed_times[0] for o in tr_ops if o["call"]["a"]["what"] in ("mk_sem", "register_file", "ensure")):
+        v.append((_sig(case, F, "tracker_not_relaunched"), witness_text(case, F, "the tracker was killed but no new tracker process started for the next tracked operation")))
+    # resource lifetime: exists while any member lives; gone after the tree ended
+    if F.outcome == "ended":
+        res = F.final.get("res") or []
+        dels = {e["name"]: e["t"] for e in (F.final.get("fs_events") or []) if e["dir"].endswith("/res") and e["ev"] == "delete"}
+        members_end = [r["t"] for pid, r in ((x["rpid"], x) for x in F.reaps.values()) if (F.procs.get(pid) or {}).get("role") in ("driver", "worker")]
+        last_member = max(members_end) if members_end else None
+        registered = [o["call"]["a"].get("name") for o in tr_ops if o["call"]["a"]["what"] == "register_file" and o["end"]["k"] == "ret"]
+        for nm in registered:
+            reg_t = [o["end"]["t"] for o in tr_ops if o["call"]["a"].get("name") == nm][0]
+            lost = any(k > reg_t - 1e9 and k < reg_t for k in killed_times) and False
+            if nm in res:
+                # registered with a tracker that was killed later: nobody can clean it (allowed, the warning says so)
+                if not any(k > reg_t for k in killed_times):
+                    v.append((_sig(case, F, "resource_not_cleaned_at_end_of_life"), witness_text(case, F, "registered file %s still exists after the whole tree and its tracker ended" % nm)))
+            elif nm in dels and last_member is not None and dels[nm] < last_member - 0.3:
+                v.append((_sig(case, F, "cleanup_before_last_member_gone"), witness_text(case, F, "registered file %s was deleted %.3f s before the last process of the tree was gone" % (nm, last_member - dels[nm]))))
+        for o in tr_ops:
+            e = o["end"]
+            if e["k"] == "ret" and o["call"]["a"].get("final"):
+                miss = [nm for nm in registered if nm not in (e["r"].get("res") or []) and not any(k > 0 for k in killed_times)]
+                if miss:
+                    v.append((_sig(case, F, "resource_removed_while_tree_alive"), witness_text(case, F, "registered file(s) %s disappeared while the root was still running" % miss)))
+    return v
